@@ -58,7 +58,7 @@ TABLE['C03'] = dict(
     summary='Proved: cdf of the code chain = cdf of the labelled chain (lump_cdf + bridges, one and two loci); cdf in [0,1] and '
             'non-decreasing along any extension of the factor list (from the four laws); the sorted sweep and `_update` are '
             'direct evaluation, also exactly on epoch boundaries; the bisection returns m with |F m - q| <= precision. '
-            'Partial: integral of 1-cdf = mean (analysis), pdf (numerical differentiation), PT2.',
+            'For the real matrix exponential the mean over a further piece of time is the integral of 1 - cdf (mean_increment_eq_integral). Partial: pdf (numerical differentiation in the code), PT2.',
     theorems=[
         ('cdf_zero', 'PG.Corollaries.cdf_zero_code', 'cdf(0) = 0 when the initial state is not absorbing (n >= 2)'),
         ('moment_zero_at_time_zero', 'PG.Corollaries.accumVal_time_zero', 'no time, no accumulated reward'),
@@ -186,9 +186,8 @@ TABLE['C07'] = dict(
 TABLE['C08'] = dict(
     imports=[A + 'DemePerm', A + 'VanLoan', A + 'RewardsThm', A + 'Labelled', A + 'ConfigThm'],
     summary='Proved: relabelling states by any bijection leaves every moment and cdf unchanged (perm_accum / perm_cdf, E_reindex); '
-            'the labelled generator is invariant under permutation of particles; deme rewards sum to one. Equivariance of the code '
-            'model `transit` under a permutation of the deme axis is exercised by the correspondence, not yet a theorem (partial); '
-            'hash-seed independence is runtime (exploration).',
+            'the labelled generator is invariant under permutation of particles; deme rewards sum to one. The code model `transit` is equivariant under permutation of the deme axis (transit_lineage_equivariant) and the moments / cdf on the BFS graphs the code builds are invariant (C08_moments_perm, C08_cdf_perm); '
+            'the input glue from the user\'s containers to the axis is modelled and proved for every listing order, omission of unsampled demes and every iteration order of the Python set (ConfigThm). Hash-seed independence of the real interpreter is exercised.',
     theorems=[
         ('moments_perm', 'PG.DemePerm.C08_moments_perm', 'HEADLINE: on the BFS graphs the code builds, listing the demes in a different order (sample vector, time scales, migration matrix permuted consistently) gives the same moment for rewards transported by name'),
         ('cdf_perm', 'PG.DemePerm.C08_cdf_perm', 'same for the cdf'),
@@ -265,8 +264,8 @@ TABLE['C11'] = dict(
     imports=[A + 'Conservation', A + 'RewardsThm', A + 'SampleConsistency', A + 'BridgeBC', A + 'Bridge'],
     summary='Proved: on every block-counting state of mass n the SFS rewards sum to the branch-length reward, the size-weighted sum is '
             'n times the height reward, folded = fold of unfolded; first moments are linear in the reward (so the identities pass to '
-            'means). Second-order versions (covariances sum to the variance) follow from multilinearity, proved for k = 1 only so far '
-            '(partial); agreement of lineage- and block-counting moments follows from both being lumpings of one labelled process.',
+            'means). Second-order versions (covariances sum to the variance, C11_sum_cov) follow from multilinearity in every slot, proved for all orders (accumVal_slot_linear); '
+            'agreement of lineage- and block-counting moments follows from both being lumpings of one labelled process.',
     theorems=[
         ('spaces_agree', 'PG.Conservation.C11_spaces_agree', 'HEADLINE: all mixed moments of tree height and total branch length agree between the block-counting and the lineage-counting chain'),
         ('block_to_lineage', 'PG.Conservation.block_to_lineage', 'forgetting block sizes is a strong lumping of the block-counting generator onto the lineage-counting generator (Vandermonde collapse)'),
